@@ -2,7 +2,19 @@ import ZarrsModel.Model.Array
 import ZarrsModel.Lemmas.Index
 import ZarrsModel.Lemmas.Grid
 import ZarrsModel.Lemmas.Store
-/- helper lemmas for C01/C04 (array refinement) -/
-namespace Zarrs
+import ZarrsModel.Lemmas.ArrayList
+import ZarrsModel.Lemmas.ArrayGrid
+import ZarrsModel.Lemmas.ArrayChunk
+import ZarrsModel.Lemmas.ArrayInv
+import ZarrsModel.Lemmas.ArrayMulti
+import ZarrsModel.Lemmas.ArrayRead
+/-
+Helper lemmas for C01/C04 (array refinement), split over several files:
 
-end Zarrs
+* `ArrayList`  — positional lookup in `boxIndices` / `Subset.indices` / `AArr.read`; `updateRuns` = scatter
+* `ArrayGrid`  — grid facts beyond C10: adjacency of consecutive chunks, global disjointness, `chunks_subset`
+* `ArrayChunk` — index arithmetic, `extract` pointwise, the standing assumptions `COk` and what they give
+* `ArrayInv`   — the refinement invariant `Inv`, single-chunk writes/erases/reads
+* `ArrayMulti` — multi-chunk writes and erases (`storeChunks`, `eraseChunks`, `storeArraySubset`)
+* `ArrayRead`  — multi-chunk reads (`retrieveArraySubset`, `retrieveChunks`), histories (`run_inv`)
+-/
